@@ -194,3 +194,7 @@ mod tests {
         ));
     }
 }
+
+#[cfg(kani)]
+#[path = "/verif/harness/cram/container_header.rs"]
+mod verif_kani;
